@@ -24,7 +24,7 @@
 (* the one written here.  Bound to the code by the `proto` events, which    *)
 (* carry the real Marshal() output for streams up to 2 KiB.                 *)
 (***************************************************************************)
-EXTENDS SlimEncode, ProtoWire
+EXTENDS SlimReader, ProtoWire
 
 \* ---- messages -------------------------------------------------------------------
 WordsOf(bm) == [w \in 1..bm.nwords |-> {b - 64 * (w - 1) : b \in {x \in bm.bits : x \div 64 = w - 1}}]
